@@ -240,6 +240,21 @@ def size_assignments(prog, b, ix):
     return out
 
 
+def cache_index(prog):
+    return {"data": fidx(prog, C, "data"), "cache_size": fidx(prog, C, "cache_size"), "cache_limit": fidx(prog, C, "cache_limit"), "cache_time_limit": fidx(prog, C, "cache_time_limit"),
+            "item_route": fidx(prog, CI, "route"), "item_host": fidx(prog, CI, "host"), "item_data": fidx(prog, CI, "data"), "item_time": fidx(prog, CI, "cache_time"), "item_mime": fidx(prog, CI, "mime_type")}
+
+
+def cache_key(chk, prog, ix=None):
+    """R1.key: an entry is found and stored under (route as given, host): the raw request path and the host index, compared whole.  (Also run
+    by C06: a key that is normalised — percent-decoded, lower-cased — lets a request routed to one directory be answered with a file cached
+    for another.)"""
+    ix = ix or cache_index(prog)
+    g = key_predicate(chk, prog, C + "::get", ix)
+    s = key_predicate(chk, prog, C + "::set", ix)
+    chk.ob("R1.key", "Cache::get vs Cache::set", "both use the same key fields", g == s and g == {"route", "host"}, f"get: {g}, set: {s}")
+
+
 def run(chk):
     prog = chk.use(core.load("A", fresh=(chk.tier == "thorough")))
     chk.explanation = (
@@ -251,9 +266,7 @@ def run(chk):
     chk.assumptions = ["rustc type checking / MIR construction / callee resolution", "VecDeque/Vec semantics of push_back/pop_front/remove"]
     ix = {"data": fidx(prog, C, "data"), "cache_size": fidx(prog, C, "cache_size"), "cache_limit": fidx(prog, C, "cache_limit"), "cache_time_limit": fidx(prog, C, "cache_time_limit"),
           "item_route": fidx(prog, CI, "route"), "item_host": fidx(prog, CI, "host"), "item_data": fidx(prog, CI, "data"), "item_time": fidx(prog, CI, "cache_time"), "item_mime": fidx(prog, CI, "mime_type")}
-    g = key_predicate(chk, prog, C + "::get", ix)
-    s = key_predicate(chk, prog, C + "::set", ix)
-    chk.ob("R1.key", "Cache::get vs Cache::set", "both use the same key fields", g == s and g == {"route", "host"}, f"get: {g}, set: {s}")
+    cache_key(chk, prog, ix)
     # ---- set
     b = prog.bodies.get(C + "::set")
     if b:
